@@ -112,7 +112,7 @@ CHECKS = {
     ),
     "C02": dict(
         category="model_checking",
-        text=('Create.tla with projection: the three apply paths as coded (exact, projected via the odometer, insufficient) against the declarative hypergeometric contribution for every admissible target; replay on library and binary with both CLI spellings and six precisions; CreateLarge.tla adds cohorts of 20-200 chromosomes whose exact hypergeometric rows (BigInteger rationals from TLC) are compared to 1e-9 relative at precision 40.'),
+        text=('Create.tla with projection: the three apply paths as coded (exact, projected via the odometer, insufficient) against the declarative hypergeometric contribution for every admissible target; replay on library and binary with both CLI spellings and six precisions; CreateLarge.tla adds cohorts of 20-200 chromosomes whose exact hypergeometric rows (BigInteger rationals from TLC) are compared to 1e-9 relative at precision 40. ProjOdometer.tla: the order in which a site\'s weights meet the cells, inductive invariant for targets of any size (Apalache).'),
         design_ref="DESIGN.md sections 2 and 3 (C02)",
         note=('Exhaustive inside the scenario bounds of the listed MCCreate_*.cfg; beyond them (more samples, longer streams) nothing is claimed by this check. Trusted: TLC, Q.class, harness file synthesis and comparison.'),
         technique="TLA+ pipeline state machine (Create.tla) with declarative oracle, TLC exhaustive enumeration, behaviour replay through library and binary",
